@@ -77,7 +77,30 @@ func (e *env) expectFlush(fs *FlushSpec, learnt bool) flushExpect {
 	return x
 }
 
-func (e *env) flush(fs *FlushSpec) {
+func (e *env) flush(fs0 *FlushSpec) {
+	c := *fs0
+	fs := &c
+	if fs.RelID != 0 && fs.ID != nil {
+		m := e.maxElec
+		var id [2]uint64
+		switch fs.RelID {
+		case 1:
+			id = m
+		case 2:
+			id = add128(m, 1)
+		case 3:
+			id = sub128(m, 1)
+		case 4:
+			id = [2]uint64{m[0] + 1, 0}
+		default:
+			id = [2]uint64{m[0] - 1, ^uint64(0)}
+			if m[0] == 0 {
+				id = sub128(m, 1)
+			}
+		}
+		fs.ID = &id
+		e.probe("flush: election id relative to the highest learnt id")
+	}
 	learnt := e.maxElec != [2]uint64{0, 0}
 	x := e.expectFlush(fs, learnt)
 	resp, err := e.net.Flush(context.Background(), flushReq(fs))
